@@ -102,6 +102,7 @@ def new_interp(ctx, contract_obj):
     from . import libmodels
     libmodels.install_stubs(it)
     it.stubs.update(contract_obj.stubs(it) or {})
+    it.loop_cuts.update(getattr(contract_obj, "loop_cuts", {}) or {})
     return it
 
 
